@@ -146,7 +146,7 @@ def run(ctx):
         for main_inc, mods in LG.all_graphs(3):
             graphs.append(("all-k3", main_inc, mods, ()))
         exhaustive_k = 3
-    n_sample = 6000 if thorough else 700
+    n_sample = 3000 if thorough else 700
     for _ in range(n_sample):
         k = rng.choice([3, 3, 4, 4] if not thorough else [4])
         targets = list(range(1, k + 1)) + [9]
@@ -206,8 +206,8 @@ def run(ctx):
 
     # ------------------------------------------------------------------ B. programs x permutations x 5 runs
     g = LG.LintGen(rng)
-    n_prog = 12000 if thorough else 520
-    max_perm = 24 if thorough else 6
+    n_prog = 4000 if thorough else 520
+    max_perm = 12 if thorough else 6
     configs = []      # (prog index, order, text, model request, ids)
     progs = []
     corpus_pi = {}
